@@ -22,6 +22,9 @@ Alpha8 == << <<1,3,1,1,1,1,1,1>>,   \* 1: tent at 2, height 3
              <<1,2,1,1,1,3,1,1>>,   \* 7: two peaks (2: height 2, 6: height 3)
              <<1,1,1,1,1,1,1,1>> >> \* 8: flat
 Alpha8a == SubSeq(Alpha8, 1, 7)
+\* variant with one tall tent: the arithmetic and the geometric mean curve of a set holding it once next to several
+\* medium tents peak at different frequencies (amplitudes e^(level/2)), so the mean-curve distribution matters
+Alpha8d == << <<1,6,1,1,1,1,1,1>> >> \o SubSeq(Alpha8, 2, 7)
 Ranges8 == { <<NoEnd, NoEnd>>, <<NoEnd, 12>>, <<4, NoEnd>>, <<4, 14>> }
 NSetC == { <<1, 1>>, <<3, 2>>, <<2, 1>>, <<3, 1>> }
 MaxItsC == {1, 2, 3, 50}
@@ -70,6 +73,9 @@ InitPermsEnv == LET K == atoi(IOEnv.VERIF_K)
 
 \* quick variant: at most about a third of the orderings of each selected multiset
 InitPermsEnvQ == { f \in InitPermsEnv : HashCv(f) % 3 = 0 }
+
+\* the orderings of one tall tent (curve 1 of Alpha8d, at grid point 2) and three medium tents (curve 5, at grid point 6)
+InitTallMedium == { f \in InitAll : SortAsc(f[1]) = <<1, 5, 5, 5>> }
 
 \* C06-focused next-state relation: rich FDWRA parameters, range updates and time-domain masks only
 \* to diversify the states FDWRA starts from
